@@ -112,7 +112,7 @@ var props = []*prop{
 		LevelNote:   "Trusted: internal/refmodel (about 400 lines, shares no code with the library; calibrated against /repo/fixtures/jsonschema_suite on each run), the format registry object shared by both sides, Go regexp, rapid. Open findings are replicated exactly in the model (deviation modes), so a different deviation is still reported.",
 		Assumptions: trusted,
 		Builds:      plain,
-		Quick:       budget{Shards: 14, Checks: 6000, TimeoutS: 400},
+		Quick:       budget{Shards: 14, Checks: 20000, TimeoutS: 400},
 		Thorough:    budget{Shards: 14, Checks: 150000, TimeoutS: 3000},
 		Fuzz:        &fuzzCfg{Target: "FuzzC01", Seconds: 240},
 	},
@@ -133,7 +133,7 @@ var props = []*prop{
 		LevelNote:   "Trusted: the reading of the documented rules encoded in internal/gen/spec.go and specedit.go (calibrated: unedited documents are accepted by the unchanged library), message classes matched against the exported format constants of spec_messages.go.",
 		Assumptions: trusted,
 		Builds:      plain,
-		Quick:       budget{Shards: 14, Checks: 45, TimeoutS: 600, ShrinkS: 30},
+		Quick:       budget{Shards: 14, Checks: 36, TimeoutS: 600, ShrinkS: 30},
 		Thorough:    budget{Shards: 14, Checks: 700, TimeoutS: 5000, ShrinkS: 60},
 	},
 	{
@@ -146,7 +146,7 @@ var props = []*prop{
 			{Name: "plain", Tags: []string{"verif"}, ShardShare: 0.5},
 			{Name: "debug", Tags: []string{"verif", "validatedebug"}, ShardShare: 0.5},
 		},
-		Quick:    budget{Shards: 14, Checks: 250, TimeoutS: 600},
+		Quick:    budget{Shards: 14, Checks: 180, TimeoutS: 600},
 		Thorough: budget{Shards: 14, Checks: 5000, TimeoutS: 5000},
 	},
 	{
@@ -180,7 +180,7 @@ var props = []*prop{
 		LevelNote:   "Trusted: the loader as the definition of 'loads'; panic capture; the driver's detection of a dying worker (the case in flight is saved before it runs). The recorded process-killing finding is avoided by construction (counted) and its witness is replayed in isolation.",
 		Assumptions: trusted,
 		Builds:      plain,
-		Quick:       budget{Shards: 14, Checks: 40, TimeoutS: 600, ShrinkS: 30},
+		Quick:       budget{Shards: 14, Checks: 30, TimeoutS: 600, ShrinkS: 30},
 		Thorough:    budget{Shards: 14, Checks: 1500, TimeoutS: 5000, ShrinkS: 60},
 		Fuzz:        &fuzzCfg{Target: "FuzzC07", Seconds: 300},
 	},
@@ -191,7 +191,7 @@ var props = []*prop{
 		LevelNote:   "Trusted: outcome normalisation (sets of messages), encoding/json re-decoding of values per call. No reference model is involved: the oracle is the library's own fresh validator, which is what the property states.",
 		Assumptions: trusted,
 		Builds:      plain,
-		Quick:       budget{Shards: 14, Checks: 4000, TimeoutS: 400},
+		Quick:       budget{Shards: 14, Checks: 12000, TimeoutS: 400},
 		Thorough:    budget{Shards: 14, Checks: 100000, TimeoutS: 3000},
 	},
 	{
@@ -244,7 +244,7 @@ var props = []*prop{
 		LevelNote:   "Trusted: internal/simplemodel numeric helpers (big.Rat; a float64 constraint is read as its shortest decimal text), the domain reading stated in DESIGN.md (constraints the declared type/format cannot represent are excluded and counted).",
 		Assumptions: trusted,
 		Builds:      plain,
-		Quick:       budget{Shards: 14, Checks: 15000, TimeoutS: 300},
+		Quick:       budget{Shards: 14, Checks: 40000, TimeoutS: 300},
 		Thorough:    budget{Shards: 14, Checks: 400000, TimeoutS: 3000},
 	},
 	{
@@ -267,7 +267,7 @@ var props = []*prop{
 		LevelNote:   "Trusted: internal/simplemodel (independent of the library; unit-tested), strfmt.Default as the meaning of date/uuid/email. The open header finding is replicated exactly; array-valued enum members against differently typed Go slices and mixed-carrier uniqueItems are outside the domain and counted.",
 		Assumptions: trusted,
 		Builds:      plain,
-		Quick:       budget{Shards: 14, Checks: 15000, TimeoutS: 300},
+		Quick:       budget{Shards: 14, Checks: 40000, TimeoutS: 300},
 		Thorough:    budget{Shards: 14, Checks: 400000, TimeoutS: 3000},
 	},
 	{
@@ -287,7 +287,7 @@ var props = []*prop{
 		LevelNote:   "Trusted: internal/refmodel's failing-location bookkeeping (same evaluator as C01), the path rendering rule (root + '.' + member, leading '.' dropped for an empty root).",
 		Assumptions: trusted,
 		Builds:      plain,
-		Quick:       budget{Shards: 14, Checks: 5000, TimeoutS: 400},
+		Quick:       budget{Shards: 14, Checks: 8000, TimeoutS: 400},
 		Thorough:    budget{Shards: 14, Checks: 120000, TimeoutS: 3000},
 	},
 	{
@@ -317,7 +317,7 @@ var props = []*prop{
 		LevelNote:   "Trusted: the 60-line model in checks/c20, rapid, Go. Results are built through the public API only (none owned by the pools); typed-nil errors are not generated.",
 		Assumptions: trusted,
 		Builds:      plain,
-		Quick:       budget{Shards: 14, Checks: 3000, TimeoutS: 240},
+		Quick:       budget{Shards: 14, Checks: 20000, TimeoutS: 240},
 		Thorough:    budget{Shards: 14, Checks: 60000, TimeoutS: 1500},
 	},
 }
